@@ -298,6 +298,30 @@ func runC13(c *core.Ctx) {
 				// other key
 				k2 := c13MkKey(r, curve)
 				k2.verifyBoth(c, digest, vr, vs, "other-key")
+				// digests whose integer value is not below the order (all ones, N, N+1, 2N-1 at order length and
+				// longer; zero): crypto/ecdsa reduces them and so must the fork. Signed by the standard library.
+				ol := (N.BitLen() + 7) / 8
+				special := map[string][]byte{
+					"digest=all-ones":        c13Ones(ol),
+					"digest=all-ones-longer": c13Ones(ol + 1 + r.IntN(40)),
+					"digest=N":               N.FillBytes(make([]byte, ol)),
+					"digest=N+1":             new(big.Int).Add(N, big.NewInt(1)).FillBytes(make([]byte, ol)),
+					"digest=zero":            make([]byte, ol),
+				}
+				if twoN := new(big.Int).Sub(new(big.Int).Lsh(N, 1), big.NewInt(1)); twoN.BitLen() <= ol*8 {
+					special["digest=2N-1"] = twoN.FillBytes(make([]byte, ol))
+				}
+				for _, cls := range []string{"digest=all-ones", "digest=all-ones-longer", "digest=N", "digest=N+1", "digest=zero", "digest=2N-1"} {
+					sd, ok := special[cls]
+					if !ok {
+						continue
+					}
+					xr, xs, err := stdecdsa.Sign(r, k.std, sd)
+					must(err)
+					k.verifyBoth(c, sd, xr, xs, cls)
+					k.verifyBoth(c, sd, vr, vs, cls+",other-signature")
+				}
+				c.Class("digests_not_below_the_order")
 				if ki == 0 && di == 0 {
 					c.Sample(name+" (r,s) classes", map[string]any{"classes": rn, "digest_len": dl})
 				}
@@ -974,4 +998,12 @@ func c13TinyCurve(c *core.Ctx) {
 			c.Violation("tiny-curve:panic:"+where, "panic on a curve with cofactor 4: "+pv, det)
 		}
 	}
+}
+
+func c13Ones(n int) []byte {
+	b := make([]byte, n)
+	for i := range b {
+		b[i] = 0xff
+	}
+	return b
 }
